@@ -171,7 +171,10 @@ def plan_for(case):
         for nc in res[1]:
             if isinstance(nc.node, NodeCoords) or (isinstance(nc.node, list) and nc.node and isinstance(nc.node[0], NodeCoords)):
                 return ("skip", "virtual-result")
-            addrs.append(ed.addr_of(nc, table))
+            ad = ed.addr_of(nc, table)
+            if get_at(lj, ad) != codec.node_to_json(nc.node, anchors=False):
+                return ("skip", "not-located")      # (parent, parentref) does not lead to the node: C02's subject
+            addrs.append(ad)
     except codec.OutOfModel as e:
         return ("skip", "oom:" + str(e)[:30])
     ts = [tup(a) for a in addrs]
@@ -186,6 +189,27 @@ def plan_for(case):
     return ("targets", addrs)
 
 
+def shared_containers(data):
+    """Addresses (pairs) at which one non-empty container OBJECT occurs twice in the result."""
+    seen, out = {}, []
+
+    def walk(n, addr):
+        if isinstance(n, (dict, list)) and not isinstance(n, (str, bytes)):
+            if len(n) > 0:
+                if id(n) in seen:
+                    out.append([seen[id(n)], addr])
+                    return
+                seen[id(n)] = addr
+            if isinstance(n, dict):
+                for k, v in n.items():
+                    walk(v, addr + [["k", k if isinstance(k, (str, int)) else str(k)]])
+            else:
+                for i, v in enumerate(n):
+                    walk(v, addr + [["i", i]])
+    walk(data, [])
+    return out[:3]
+
+
 def impl_run(case, via="kw"):
     """Merger(l, mergeat=path).merge_with(r): {"ok": doc} | {"err": class, "site"} | {"oom": 1}."""
     from yamlpath.merger import Merger
@@ -194,13 +218,13 @@ def impl_run(case, via="kw"):
         mc = mg.make_config(real_cfg(case), via, extra_args={"mergeat": case["path"]})
         m = Merger(mc.log, codec.json_to_ruamel(case["l"]), mc)
         m.merge_with(codec.json_to_ruamel(case["r"]))
-        return codec.node_to_json(m.data, anchors=False)
+        return codec.node_to_json(m.data, anchors=False), shared_containers(m.data)
     try:
         res = ed.guarded(go, 5.0)
     except codec.OutOfModel:
         return {"oom": 1}
     if res[0] == "ok":
-        return {"ok": res[1]}
+        return {"ok": res[1][0], "shared": res[1][1]}
     if res[0] == "timeout":
         return {"err": "timeout"}
     e = res[2]
@@ -283,6 +307,8 @@ def judge(case, plan, im, mo_full):
                 sig = "scalar-rhs-retyped"
             elif t.get("fresh"):
                 sig = "created-without-rhs"
+            elif im.get("shared") and len(targets) > 1:
+                sig = "targets-share-rhs-nodes"
             elif old is not None and got == old:
                 sig = "target-unchanged:%s<-%s" % (mg.kind(old), mg.kind(r))
             else:
@@ -306,6 +332,11 @@ def judge(case, plan, im, mo_full):
                 out.append(("violation", "frame:outside-changed", "merge %s gave %s: the node at %s lies outside every target "
                             "and was %s" % (desc, show(res), seg_path(b), show(n))))
                 break
+    if not out and im.get("shared") and plan[0] == "targets" and len(targets) > 1:
+        a, b = im["shared"][0]
+        out.append(("violation", "targets-share-rhs-nodes", "merge %s gave %s in which %s and %s are ONE object (dumped as "
+                    "&id001 / *id001): a later change aimed at one of them changes the other" % (
+                        desc, show(res), seg_path(tup(a)), seg_path(tup(b)))))
     if out:
         return out
     if res != mo["ok"] and r["k"] == "str" and retype_only(res, mo["ok"], r):
@@ -455,7 +486,7 @@ def _exh_job(job):
     for l in lefts:
         for cat, path, segs in vocab(l):
             for r in rights:
-                for p in range(npol):
+                for p in range(1 if cat in ("below-scalar", "search-nomatch") else npol):
                     pol = mg.ALL_POLICIES[(i * npol + p * (180 // npol) + i // 7) % 180] if npol < 180 else mg.ALL_POLICIES[p]
                     cases.append({"l": l, "r": r, "path": path, "segs": segs, "cfg": pol, "cat": cat})
                 i += 1
@@ -781,7 +812,7 @@ def run(chk: core.Check):
         per = 6 if tier == "quick" else 2
         off = rng.randrange(180)
         jobs += [("EXH", lefts[i:i + per], rights, npol, off + i * 50) for i in range(0, len(lefts), per)]
-        nrand = int(os.environ.get("YPV_NRAND") or (120000 if tier == "quick" else 1500000))
+        nrand = int(os.environ.get("YPV_NRAND") or (160000 if tier == "quick" else 2000000))
         per_job = 2000
         jobs += [("RAND", chk.seed * 100003 + i, per_job) for i in range(nrand // per_job)]
         chk.exhaustive = True
@@ -792,11 +823,15 @@ def run(chk: core.Check):
         results = core.pmap(_job, jobs)
         crng = random.Random(chk.seed + 17)
         ccases = [dict(c) for c in CORPUS]
-        while len(ccases) < (260 if tier == "quick" else 2500):
+        while len(ccases) < (320 if tier == "quick" else 3000):
             try:
-                ccases.append(rand_case(crng))
+                c = rand_case(crng)
             except (IndexError, KeyError, TypeError):
                 continue
+            if c["l"]["k"] == "null" or c["r"]["k"] == "null" or mg.needs_ini(c["cfg"]) or c["cfg"].get("rules") \
+                    or c.get("lrules") or c.get("lkeys"):
+                continue
+            ccases.append(c)
         cli_checks(chk, ccases)
     for stats, findings, samples, nontrivial, hist in results:
         chk.evaluations += stats["n"]
